@@ -5,6 +5,8 @@
 -/
 import AnyVecModel.Props.Refine
 import AnyVecModel.Proofs.ExecClone
+import AnyVecModel.Proofs.ExecMove
+import AnyVecModel.Proofs.ExecLazy
 namespace AnyVec
 namespace RefineMulti
 open World Refine
@@ -15,6 +17,7 @@ structure AVec where
   items : List Nat
   cap : Nat
   fixed : Bool
+  cloneable : Bool
   deriving Repr, DecidableEq
 
 /-- all vectors (a dropped one is `none`) and the counter fresh identities come from -/
@@ -23,13 +26,13 @@ structure MSpec where
   next : Nat
   deriving Repr, DecidableEq
 
-def AVec.spec (a : AVec) (next : Nat) : Spec := ⟨a.items, next, a.cap, a.fixed⟩
+def AVec.spec (a : AVec) (next : Nat) : Spec := ⟨a.items, next, a.cap, a.fixed, a.cloneable⟩
 
 /-- a concrete vector shows an abstract one (a dead one shows `none`) -/
 def Shows (d : VecSt) : Option AVec → Prop
   | none => d.live = false
   | some a => d.live = true ∧ d.ty = a.ty ∧ d.abs = a.items.map Cell.val ∧ d.cap = a.cap ∧
-      VecSt.resizable d.bk = !a.fixed
+      (VecSt.resizable d.bk = !a.fixed ∧ d.cloneable = a.cloneable)
 
 /-- the world shows the abstract state -/
 structure MRel (w : World) (ms : MSpec) : Prop where
@@ -49,7 +52,7 @@ structure MOp where
 inductive MSpec.Step : MSpec → MOp → MSpec → Prop where
   | on (ms : MSpec) (v : Nat) (op : VOp) (a : AVec) (s' : Spec) (hv : ms.vecs[v]? = some (some a))
       (hop : op.Allowed a.fixed) (hs : Spec.Step (a.spec ms.next) op s') :
-      Step ms ⟨v, op⟩ ⟨ms.vecs.set v (some ⟨a.ty, s'.items, s'.cap, s'.fixed⟩), s'.next⟩
+      Step ms ⟨v, op⟩ ⟨ms.vecs.set v (some ⟨a.ty, s'.items, s'.cap, s'.fixed, s'.cloneable⟩), s'.next⟩
 
 /-- the script step of an operation on a live vector of the world: the element type is the vector's -/
 def MOp.toOp (w : World) (m : MOp) : Op :=
@@ -95,7 +98,7 @@ theorem mstep_refines (cfg : Cfg) (w : World) (ms : MSpec) (h : MRel w ms) (m : 
   by_cases huv : u = m.v
   · subst huv
     rw [hd'] at hu; cases hu
-    refine ⟨some ⟨a.ty, s'.items, s'.cap, s'.fixed⟩, by simp [hvlt], ?_⟩
+    refine ⟨some ⟨a.ty, s'.items, s'.cap, s'.fixed, s'.cloneable⟩, by simp [hvlt], ?_⟩
     exact ⟨hl', hty', habs', hcp', hbk'⟩
   · rw [hoth u huv] at hu
     obtain ⟨oa, hoa, hshow⟩ := hsh u du hu
@@ -110,7 +113,7 @@ theorem MSpec.Step.keeps {ms ms' : MSpec} {m : MOp} (h : MSpec.Step ms m ms') (u
     · subst huv
       rw [hv] at hu; cases hu
       have hlt : u < ms.vecs.length := (List.getElem?_eq_some_iff.mp hv).1
-      exact ⟨⟨a.ty, s'.items, s'.cap, s'.fixed⟩, by simp [hlt], hs.fixed_eq⟩
+      exact ⟨⟨a.ty, s'.items, s'.cap, s'.fixed, s'.cloneable⟩, by simp [hlt], hs.fixed_eq⟩
     · exact ⟨a, by simp only; rw [List.getElem?_set_ne (Ne.symm huv)]; exact hu, rfl⟩
 
 /-- run a history of operations on any vectors of the world -/
@@ -147,14 +150,14 @@ theorem mhistory_refines (cfg : Cfg) (ops : List MOp) :
 theorem mrel_of_reach (cfg : Cfg) (w : World) (hr : Hist.Reach cfg w) (hf : w.fault = none) :
     ∃ ms, MRel w ms := by
   have hinv := Hist.reach_inv_core cfg w hr
-  refine ⟨⟨w.vecs.map fun d => if d.live then some ⟨d.ty, d.abs.map Cell.idOr0, d.cap, !VecSt.resizable d.bk⟩ else none,
+  refine ⟨⟨w.vecs.map fun d => if d.live then some ⟨d.ty, d.abs.map Cell.idOr0, d.cap, !VecSt.resizable d.bk, d.cloneable⟩ else none,
     w.created⟩, hinv, hf, rfl, by simp, ?_⟩
   intro v d hv
   have hg := hinv.good v d hv
-  refine ⟨if d.live then some ⟨d.ty, d.abs.map Cell.idOr0, d.cap, !VecSt.resizable d.bk⟩ else none, by simp [hv], ?_⟩
+  refine ⟨if d.live then some ⟨d.ty, d.abs.map Cell.idOr0, d.cap, !VecSt.resizable d.bk, d.cloneable⟩ else none, by simp [hv], ?_⟩
   by_cases hl : d.live = true
   · rw [if_pos hl]
-    refine ⟨hl, rfl, ?_, rfl, by simp⟩
+    refine ⟨hl, rfl, ?_, rfl, by simp, rfl⟩
     show d.abs = (d.abs.map Cell.idOr0).map Cell.val
     simp only [List.map_map]
     have : ∀ c ∈ d.abs, (Cell.val ∘ Cell.idOr0) c = c := by
@@ -172,7 +175,8 @@ identities - the clones, in order - at a capacity that holds them, on the same k
 cannot be built (nothing happens); or the room cannot be reserved (the new, empty vector is dropped again) -/
 inductive CloneStep (ms : MSpec) (a : AVec) : MSpec → Prop where
   | cloned (c : Nat) (hc : a.items.length ≤ c) :
-      CloneStep ms a ⟨ms.vecs ++ [some ⟨a.ty, List.range' ms.next a.items.length, c, a.fixed⟩], ms.next + a.items.length⟩
+      CloneStep ms a
+        ⟨ms.vecs ++ [some ⟨a.ty, List.range' ms.next a.items.length, c, a.fixed, a.cloneable⟩], ms.next + a.items.length⟩
   | noStorage : CloneStep ms a ms
   | noRoom : CloneStep ms a ⟨ms.vecs ++ [none], ms.next⟩
 
@@ -200,12 +204,15 @@ theorem shows_append (w w' : World) (ms : MSpec) (x : VecSt) (oa : Option AVec)
 /-- **`clone()` refines**: from any world that shows the abstract state, cloning a live cloneable vector leads to a world
 that shows one of the three `CloneStep` outcomes; the source vector and every other vector are untouched -/
 theorem clone_refines (cfg : Cfg) (w : World) (ms : MSpec) (h : MRel w ms) (v : Nat) (a : AVec)
-    (hv : ms.vecs[v]? = some (some a)) (d : VecSt) (hd : w.vecs[v]? = some d) (hcl : d.cloneable = true) :
+    (hv : ms.vecs[v]? = some (some a)) (hcla : a.cloneable = true) :
     ∃ ms', CloneStep ms a ms' ∧ MRel (step cfg (.clone v) w).1 ms' ∧ (step cfg (.clone v) w).2.notUb := by
   obtain ⟨hinv, hf, hn, hlen, hsh⟩ := h
+  have hvlt0 : v < ms.vecs.length := (List.getElem?_eq_some_iff.mp hv).1
+  obtain ⟨d, hd⟩ : ∃ d, w.vecs[v]? = some d := ⟨w.vecs[v]'(by omega), List.getElem?_eq_getElem (by omega)⟩
   obtain ⟨oa, hoa, hshow⟩ := hsh v d hd
   rw [hv] at hoa; cases hoa
-  obtain ⟨hl, hty, habs, hcp, hbk⟩ := hshow
+  obtain ⟨hl, hty, habs, hcp, hbk, hclo⟩ := hshow
+  have hcl : d.cloneable = true := by rw [hclo]; exact hcla
   have hcore : Hist.Core (.clone v) := trivial
   have hvalid : Hist.Valid w.vecs (.clone v) := ⟨d, hd, hl, hcl⟩
   obtain ⟨hinv', hnub⟩ := Hist.step_inv cfg _ w hinv hcore hvalid
@@ -258,7 +265,7 @@ theorem clone_refines (cfg : Cfg) (w : World) (ms : MSpec) (h : MRel w ms) (v : 
     | ok p =>
       obtain ⟨d1, es⟩ := p
       obtain ⟨hc1, hl1, hcells1, hwf1, hty1, _, hlv1, _⟩ := reserve_full nv0 d1 d.len es hwf0 hres
-      obtain ⟨_, hbk1, _⟩ := Refine.reserve_ok_cases nv0 d1 d.len es hwf0 hres
+      obtain ⟨_, ⟨hbk1, hcl1⟩, _⟩ := Refine.reserve_ok_cases nv0 d1 d.len es hwf0 hres
       have hlive1 : d1.live = true := by rw [hlv1]
       let w2 : World := { (w1.upd w.vecs.length d1) with ev := es.reverse ++ w1.ev }
       have hvo : vecOp w.vecs.length (fun s => s.reserve d.len) w1 = (w2, .ok ()) := by
@@ -270,7 +277,7 @@ theorem clone_refines (cfg : Cfg) (w : World) (ms : MSpec) (h : MRel w ms) (v : 
       have hn2 : w2.vecs[w.vecs.length]? = some d1 := by
         show (w1.vecs.set w.vecs.length d1)[w.vecs.length]? = _
         simp [hlt1]
-      obtain ⟨n', hcl', hlen', hcap', hlive', hty', hbk', _, _, hcells'⟩ :=
+      obtain ⟨n', hcl', hlen', hcap', hlive', hty', hbk', hclo', _, _, hcells'⟩ :=
         AnyVec.cloneLoop_nofault w2 v w.vecs.length d d1 0 d.len hne hs2 hl (by have := hg.wf.len_le_cap; omega)
           (by intro j hj; have := hg.init j hj; simpa using this) hn2 hlive1 (by have : nv0.len = 0 := rfl; omega)
           (by show w1.fault = none; exact hw1f)
@@ -303,7 +310,7 @@ theorem clone_refines (cfg : Cfg) (w : World) (ms : MSpec) (h : MRel w ms) (v : 
       refine ⟨hinv', hflt, by rw [hcr, hn, hlenA], by rw [hvecs]; simp [hlen], ?_⟩
       refine shows_append w _ ms nfin _ hlen hsh hvecs ?_
       refine ⟨hlive', by show n'.ty = a.ty; rw [hty', hty1]; exact hty, ?_, by show n'.cap = d1.cap; exact hcap',
-        by show VecSt.resizable n'.bk = _; rw [hbk', hbk1]; exact hbk⟩
+        by show VecSt.resizable n'.bk = _ ∧ n'.cloneable = _; rw [hbk', hclo', hbk1, hcl1]; exact ⟨hbk, hclo⟩⟩
       show n'.cells.take d.len = _
       have hcr2 : w2.created = ms.next := by show w1.created = _; rw [hw1c, hn]
       have hmlen : d.len ≤ n'.cells.length := by
@@ -368,6 +375,572 @@ theorem clone_refines (cfg : Cfg) (w : World) (ms : MSpec) (h : MRel w ms) (v : 
     | ub m =>
       have := reserve_notUb nv0 d.len
       rw [hres] at this; exact this.elim
+
+/-! ### an element moved from one vector into another: `u.push(v.remove(i))` -/
+
+/-- what giving the handle of `v.remove(i)` to `u.push(..)` can lead to: the item changes vectors - the very same identity,
+nothing cloned, nothing destroyed; or the destination refuses it (wrong element type, no room) and the dropped handle
+completes the removal and destroys the item; or `i` is out of range and nothing happens -/
+inductive MoveStep (ms : MSpec) (v u i : Nat) (a au : AVec) : MSpec → Prop where
+  | moved (c : Nat) (hi : i < a.items.length) (hty : a.ty = au.ty) (hroom : (au.spec ms.next).Room (some c)) :
+      MoveStep ms v u i a au
+        ⟨(ms.vecs.set u (some { au with items := au.items ++ [a.items.getD i 0], cap := c })).set v
+            (some { a with items := a.items.eraseIdx i }), ms.next⟩
+  | destroyed (hi : i < a.items.length) (h : a.ty ≠ au.ty ∨ (au.spec ms.next).Room none) :
+      MoveStep ms v u i a au ⟨ms.vecs.set v (some { a with items := a.items.eraseIdx i }), ms.next⟩
+  | out (hi : a.items.length ≤ i) : MoveStep ms v u i a au ms
+
+theorem shows_set (w : World) (ms : MSpec) (l' : List VecSt) (ms' : List (Option AVec))
+    (hsh : ∀ (k : Nat) (d : VecSt), w.vecs[k]? = some d → ∃ oa, ms.vecs[k]? = some oa ∧ Shows d oa)
+    (h : ∀ (k : Nat) (d : VecSt), l'[k]? = some d →
+      (w.vecs[k]? = some d ∧ ms'[k]? = ms.vecs[k]?) ∨ ∃ oa, ms'[k]? = some oa ∧ Shows d oa) :
+    ∀ (k : Nat) (d : VecSt), l'[k]? = some d → ∃ oa, ms'[k]? = some oa ∧ Shows d oa := by
+  intro k d hk
+  rcases h k d hk with ⟨h1, h2⟩ | h3
+  · obtain ⟨oa, hoa, hs⟩ := hsh k d h1
+    exact ⟨oa, by rw [h2]; exact hoa, hs⟩
+  · exact h3
+
+/-- **moving an element between two vectors refines**: the identity that leaves `v` is the one that arrives in `u` -/
+theorem move_refines (cfg : Cfg) (w : World) (ms : MSpec) (h : MRel w ms) (v u i : Nat) (hvu : v ≠ u) (a au : AVec)
+    (hv : ms.vecs[v]? = some (some a)) (hu : ms.vecs[u]? = some (some au)) :
+    ∃ ms', MoveStep ms v u i a au ms' ∧ MRel (step cfg (.remove v i (.pushTo u)) w).1 ms' ∧
+      (step cfg (.remove v i (.pushTo u)) w).2.notUb := by
+  obtain ⟨hinv, hf, hn, hlen, hsh⟩ := h
+  have hvlt : v < ms.vecs.length := (List.getElem?_eq_some_iff.mp hv).1
+  have hult : u < ms.vecs.length := (List.getElem?_eq_some_iff.mp hu).1
+  obtain ⟨d, hd⟩ : ∃ d, w.vecs[v]? = some d := ⟨w.vecs[v]'(by omega), List.getElem?_eq_getElem (by omega)⟩
+  obtain ⟨du, hdu⟩ : ∃ d, w.vecs[u]? = some d := ⟨w.vecs[u]'(by omega), List.getElem?_eq_getElem (by omega)⟩
+  obtain ⟨oa, hoa, hshow⟩ := hsh v d hd
+  rw [hv] at hoa; cases hoa
+  obtain ⟨hl, hty, habs, hcp, hbk⟩ := hshow
+  obtain ⟨oau, hoau, hshowu⟩ := hsh u du hdu
+  rw [hu] at hoau; cases hoau
+  obtain ⟨hlu, htyu, habsu, hcpu, hbku⟩ := hshowu
+  have hcore : Hist.Core (.remove v i (.pushTo u)) := trivial
+  have hvalid : Hist.Valid w.vecs (.remove v i (.pushTo u)) := ⟨⟨d, hd, hl⟩, hvu, du, hdu, hlu⟩
+  obtain ⟨hinv', hnub⟩ := Hist.step_inv cfg _ w hinv hcore hvalid
+  have hg := hinv.good v d hd
+  have hgu := hinv.good u du hdu
+  have hlenA := Refine.abs_len hg.wf habs
+  by_cases hi : i < d.len
+  · have hc := Refine.cell_of_abs hg habs i hi
+    have hwlt : v < w.vecs.length := (List.getElem?_eq_some_iff.mp hd).1
+    have hwult : u < w.vecs.length := (List.getElem?_eq_some_iff.mp hdu).1
+    -- the source after the removal shows the items without item `i`
+    have hshowV : Shows (d.removeAt i) (some { a with items := a.items.eraseIdx i }) := by
+      refine ⟨by simp [VecSt.removeAt, hl], by simp [VecSt.removeAt, hty], ?_, by simp [VecSt.removeAt, hcp],
+        by simp [VecSt.removeAt, hbk]⟩
+      rw [VecSt.removeAt_abs d i hg.wf hi, habs, Refine.map_eraseIdx']
+    -- the element is destroyed: the handle was refused
+    have rejected : (d.ty ≠ du.ty ∨ (d.ty = du.ty ∧ ∃ m, du.reserveOne = .panic m)) →
+        (a.ty ≠ au.ty ∨ (au.spec ms.next).Room none) →
+        ∃ ms', MoveStep ms v u i a au ms' ∧ MRel (step cfg (.remove v i (.pushTo u)) w).1 ms' ∧
+          (step cfg (.remove v i (.pushTo u)) w).2.notUb := by
+      intro hrej hwhy
+      obtain ⟨m', hex⟩ := remove_push_rejected_exec cfg w v u i _ d du hvu hd hdu hl hlu hg.wf hi hc hf hrej
+      refine ⟨_, MoveStep.destroyed (by omega) hwhy, ?_, hnub⟩
+      rw [hex] at hinv' ⊢
+      refine ⟨hinv', by simpa [logDrop] using hf, by simpa [logDrop] using hn, by simp [hlen], ?_⟩
+      intro k dk hk
+      have hk' : (w.vecs.set v (d.removeAt i))[k]? = some dk := hk
+      by_cases hkv : k = v
+      · subst hkv
+        rw [List.getElem?_set_self hwlt] at hk'
+        cases hk'
+        exact ⟨_, by simp [hvlt], hshowV⟩
+      · rw [List.getElem?_set_ne (Ne.symm hkv)] at hk'
+        obtain ⟨oa, hoa, hs⟩ := hsh k dk hk'
+        exact ⟨oa, by simp only; rw [List.getElem?_set_ne (Ne.symm hkv)]; exact hoa, hs⟩
+    by_cases htyeq : d.ty = du.ty
+    · cases hr : du.reserveOne with
+      | ok p =>
+        obtain ⟨du1, es⟩ := p
+        have hex := remove_push_exec2 cfg w v u i _ d du du1 es hvu hd hdu hl hlu hg.wf hgu.wf hi hc htyeq hr
+        obtain ⟨hroom1, hlen1, ha1, hw1, hty1, _, _, _, hcl1, hbk1, hl1⟩ := reserveOne_spec du du1 es hgu.wf hr
+        refine ⟨_, MoveStep.moved du1.cap (by omega) (by rw [← hty, ← htyu]; exact htyeq)
+          (Refine.room_ok hgu.wf habsu hcpu hbku.1 hr), ?_, hnub⟩
+        rw [hex] at hinv' ⊢
+        refine ⟨hinv', hf, hn, by simp [hlen], ?_⟩
+        intro k dk hk
+        have hk' : ((w.vecs.set u (du1.pushCell (.val (a.items.getD i 0)))).set v (d.removeAt i))[k]? = some dk := hk
+        by_cases hkv : k = v
+        · subst hkv
+          rw [List.getElem?_set_self (by simp; exact hwlt)] at hk'
+          cases hk'
+          exact ⟨_, by simp [hvlt], hshowV⟩
+        · rw [List.getElem?_set_ne (Ne.symm hkv)] at hk'
+          by_cases hku : k = u
+          · subst hku
+            rw [List.getElem?_set_self hwult] at hk'
+            cases hk'
+            refine ⟨some { au with items := au.items ++ [a.items.getD i 0], cap := du1.cap }, ?_, ?_⟩
+            · simp only; rw [List.getElem?_set_ne (Ne.symm hkv)]; simp [hult]
+            · refine ⟨by simp [VecSt.pushCell, hl1, hlu], by simp [VecSt.pushCell, hty1, htyu], ?_,
+                by simp [VecSt.pushCell], by simp [VecSt.pushCell, hbk1, hcl1, hbku]⟩
+              rw [VecSt.pushCell_abs du1 _ hw1, ha1, habsu]; simp
+          · rw [List.getElem?_set_ne (Ne.symm hku)] at hk'
+            obtain ⟨oa, hoa, hs⟩ := hsh k dk hk'
+            refine ⟨oa, ?_, hs⟩
+            simp only
+            rw [List.getElem?_set_ne (Ne.symm hkv), List.getElem?_set_ne (Ne.symm hku)]; exact hoa
+      | panic m =>
+        exact rejected (Or.inr ⟨htyeq, m, hr⟩) (Or.inr (Refine.room_refused hgu.wf habsu hcpu hr))
+      | ub m =>
+        have := reserveOne_notUb du
+        rw [hr] at this; exact this.elim
+    · exact rejected (Or.inl htyeq) (Or.inl (by rw [← hty, ← htyu]; exact htyeq))
+  · have hex : step cfg (.remove v i (.pushTo u)) w = ({ w with fault := none }, .panic "Index out of range!") := by
+      simp only [step, WM.bind_apply, getVec_ok w v d hd hl, hi, if_false, WM.panic_apply]
+    refine ⟨ms, MoveStep.out (by omega), ?_, hnub⟩
+    rw [hex] at hinv' ⊢
+    exact ⟨hinv', rfl, hn, hlen, hsh⟩
+
+/-! ### dropping a vector -/
+
+theorem map_val_inj : ∀ (l l' : List Nat), l.map Cell.val = l'.map Cell.val → l = l'
+  | [], [], _ => rfl
+  | [], _ :: _, h => by simp at h
+  | _ :: _, [], h => by simp at h
+  | x :: xs, y :: ys, h => by
+    simp only [List.map_cons, List.cons.injEq, Cell.val.injEq] at h
+    rw [h.1, map_val_inj xs ys h.2]
+
+/-- **dropping a vector refines**: its component becomes `none`, every one of its items is destroyed exactly once, in
+order, nothing else is destroyed and no other vector changes -/
+theorem drop_refines (cfg : Cfg) (w : World) (ms : MSpec) (h : MRel w ms) (v : Nat) (a : AVec)
+    (hv : ms.vecs[v]? = some (some a)) :
+    MRel (step cfg (.dropVec v) w).1 ⟨ms.vecs.set v none, ms.next⟩ ∧ (step cfg (.dropVec v) w).2.notUb ∧
+      (step cfg (.dropVec v) w).1.dropLog = a.items.reverse ++ w.dropLog := by
+  obtain ⟨hinv, hf, hn, hlen, hsh⟩ := h
+  have hvlt : v < ms.vecs.length := (List.getElem?_eq_some_iff.mp hv).1
+  obtain ⟨d, hd⟩ : ∃ d, w.vecs[v]? = some d := ⟨w.vecs[v]'(by omega), List.getElem?_eq_getElem (by omega)⟩
+  obtain ⟨oa, hoa, hshow⟩ := hsh v d hd
+  rw [hv] at hoa; cases hoa
+  obtain ⟨hl, hty, habs, hcp, hbk⟩ := hshow
+  obtain ⟨hinv', hnub⟩ := Hist.step_inv cfg (.dropVec v) w hinv trivial trivial
+  have hg := hinv.good v d hd
+  have hwlt : v < w.vecs.length := (List.getElem?_eq_some_iff.mp hd).1
+  have h1 := hg.wf.len_le; have h2 := hg.wf.cells_le
+  let d0 : VecSt := { d with len := 0 }
+  let w0 : World := w.upd v d0
+  have hv0 : w0.vecs[v]? = some d0 := World.upd_get w v d0 hwlt
+  have hdr : dropRange v false 0 d.len w0 = (logDrops d.hasDrop (d.idsRange 0 d.len) w0, .ok ()) := by
+    have := dropRange_nofault w0 v d0 false 0 d.len hv0 hl (by simpa [w0] using hf) (by show 0 + (d.len - 0) ≤ d.cap; omega)
+      (by intro j hj; have := hg.init j (by omega); simpa using this)
+    simpa [d0, VecSt.idsRange] using this
+  let w1 : World := logDrops d.hasDrop (d.idsRange 0 d.len) w0
+  have hv1 : w1.vecs[v]? = some d0 := by simpa [w1] using hv0
+  have hdr' : dropRange v false 0 d.len (w.upd v { d with len := 0 }) = (w1, .ok ()) := hdr
+  let dead : VecSt := { d0 with live := false, cells := [], cap := 0 }
+  have hids : d.idsRange 0 d.len = a.items := by
+    have := idsRange_map_seg d hg 0 d.len (by omega)
+    rw [show seg d.abs 0 (0 + d.len) = d.abs by simp [seg, VecSt.abs, List.take_take]] at this
+    rw [habs] at this
+    exact map_val_inj _ _ this
+  have hfin : ∃ W', step cfg (.dropVec v) w = (W', .ok []) ∧ W'.vecs = w.vecs.set v dead ∧ W'.created = w.created ∧
+      W'.fault = none ∧ W'.dropLog = (d.idsRange 0 d.len).reverse ++ w.dropLog := by
+    have hvs : (w1.upd v dead).vecs = w.vecs.set v dead := by
+      show ((logDrops d.hasDrop (d.idsRange 0 d.len) (w.upd v d0)).vecs.set v dead) = _
+      rw [World.logDrops_vecs]
+      show (w.vecs.set v d0).set v dead = _
+      simp
+    have hdl : w1.dropLog = (d.idsRange 0 d.len).reverse ++ w.dropLog := by
+      show (logDrops d.hasDrop (d.idsRange 0 d.len) w0).dropLog = _
+      rw [World.logDrops_dropLog]; rfl
+    have hw1f : w1.fault = none := by simpa [w1, w0] using hf
+    have hw1c : w1.created = w.created := by simp [w1, w0]
+    have hstep0 : step cfg (.dropVec v) w = (do dropVec v; pure [] : WM Out) w := by
+      simp only [step, WM.bind_apply, WM.get_apply, hd, hl, if_true]
+    cases hbk' : d.bk with
+    | heap =>
+      by_cases hz : d.size * d.cap ≠ 0
+      · refine ⟨{ (w1.upd v dead) with ev := [Event.dealloc (d.size * d.cap) d.align].reverse ++ w1.ev }, ?_, hvs, hw1c, hw1f, hdl⟩
+        rw [hstep0]
+        simp only [WM.bind_apply, dropVec, getVec_ok w v d hd hl, setLen, setVec_apply,
+          WM.onUnwind, hdr', getVec_ok w1 v d0 hv1 hl, WM.pure_apply]
+        simp [d0, hbk', hz, emit, dead]
+        rfl
+      · refine ⟨w1.upd v dead, ?_, hvs, hw1c, hw1f, hdl⟩
+        rw [hstep0]
+        simp only [WM.bind_apply, dropVec, getVec_ok w v d hd hl, setLen, setVec_apply,
+          WM.onUnwind, hdr', getVec_ok w1 v d0 hv1 hl, WM.pure_apply]
+        simp [d0, hbk', hz, dead]
+    | reloc =>
+      refine ⟨{ (w1.upd v dead) with ev := [Event.memDrop].reverse ++ w1.ev }, ?_, hvs, hw1c, hw1f, hdl⟩
+      rw [hstep0]
+      simp only [WM.bind_apply, dropVec, getVec_ok w v d hd hl, setLen, setVec_apply,
+        WM.onUnwind, hdr', getVec_ok w1 v d0 hv1 hl, WM.pure_apply]
+      simp [d0, hbk', emit, dead]
+      rfl
+    | stack b =>
+      refine ⟨w1.upd v dead, ?_, hvs, hw1c, hw1f, hdl⟩
+      rw [hstep0]
+      simp only [WM.bind_apply, dropVec, getVec_ok w v d hd hl, setLen, setVec_apply,
+        WM.onUnwind, hdr', getVec_ok w1 v d0 hv1 hl, WM.pure_apply]
+      simp [d0, hbk', dead]
+    | stackN n b =>
+      refine ⟨w1.upd v dead, ?_, hvs, hw1c, hw1f, hdl⟩
+      rw [hstep0]
+      simp only [WM.bind_apply, dropVec, getVec_ok w v d hd hl, setLen, setVec_apply,
+        WM.onUnwind, hdr', getVec_ok w1 v d0 hv1 hl, WM.pure_apply]
+      simp [d0, hbk', dead]
+    | empty =>
+      refine ⟨w1.upd v dead, ?_, hvs, hw1c, hw1f, hdl⟩
+      rw [hstep0]
+      simp only [WM.bind_apply, dropVec, getVec_ok w v d hd hl, setLen, setVec_apply,
+        WM.onUnwind, hdr', getVec_ok w1 v d0 hv1 hl, WM.pure_apply]
+      simp [d0, hbk', dead]
+  obtain ⟨W', hex, hvecs, hcr, hflt, hdl⟩ := hfin
+  rw [hex] at hinv' hnub ⊢
+  refine ⟨⟨hinv', hflt, by rw [hcr, hn], by rw [hvecs]; simp [hlen], ?_⟩, hnub, by rw [hdl, hids]⟩
+  intro k dk hk
+  rw [hvecs] at hk
+  by_cases hkv : k = v
+  · subst hkv
+    rw [List.getElem?_set_self hwlt] at hk
+    cases hk
+    exact ⟨none, by simp [hvlt], rfl⟩
+  · rw [List.getElem?_set_ne (Ne.symm hkv)] at hk
+    obtain ⟨oa, hoa, hs⟩ := hsh k dk hk
+    exact ⟨oa, by simp only; rw [List.getElem?_set_ne (Ne.symm hkv)]; exact hoa, hs⟩
+
+/-! ### creating a vector -/
+
+/-- **`AnyVec::new` refines**: a new last component - empty, of the requested element type, at the capacity the storage
+starts with - and nothing else changes; or the storage cannot be built for this element layout (a stack too small, an
+alignment it does not support): a panic and no change at all -/
+theorem new_refines (cfg : Cfg) (w : World) (ms : MSpec) (h : MRel w ms) (ty : Nat) (bk : Backend) (cl : Bool) :
+    (∃ cap, VecSt.buildCap bk cfg.size cfg.align = .ok cap ∧
+        MRel (step cfg (.new ty bk cl) w).1 ⟨ms.vecs ++ [some ⟨ty, [], cap, !VecSt.resizable bk, cl⟩], ms.next⟩ ∧
+        (step cfg (.new ty bk cl) w).2 = .ok []) ∨
+    (∃ m, VecSt.buildCap bk cfg.size cfg.align = .panic m ∧ MRel (step cfg (.new ty bk cl) w).1 ms ∧
+        (step cfg (.new ty bk cl) w).2 = .panic m) := by
+  obtain ⟨hinv, hf, hn, hlen, hsh⟩ := h
+  obtain ⟨hinv', hnub⟩ := Hist.step_inv cfg (.new ty bk cl) w hinv trivial trivial
+  cases hb : VecSt.buildCap bk cfg.size cfg.align with
+  | ok cap =>
+    left
+    let nv : VecSt := { ty := ty, size := cfg.size, align := cfg.align, hasDrop := cfg.hasDrop, cloneable := cl, bk := bk,
+                        cap := cap, cells := [], len := 0, gen := 0, live := true }
+    have hfin : ∃ W', step cfg (.new ty bk cl) w = (W', .ok []) ∧ W'.vecs = w.vecs ++ [nv] ∧ W'.created = w.created ∧
+        W'.fault = none := by
+      by_cases hr : bk = .reloc
+      · refine ⟨{ w with vecs := w.vecs ++ [nv], ev := [Event.memBuild cap].reverse ++ w.ev }, ?_, rfl, rfl, hf⟩
+        simp only [step, newVec, WM.bind_apply, hb, WM.lift_ok, WM.get_apply, WM.modify_apply]
+        rw [if_pos hr]
+        simp only [emit, WM.modify_apply, WM.bind_apply, WM.pure_apply]
+        rfl
+      · refine ⟨{ w with vecs := w.vecs ++ [nv] }, ?_, rfl, rfl, hf⟩
+        simp only [step, newVec, WM.bind_apply, hb, WM.lift_ok, WM.get_apply, WM.modify_apply]
+        rw [if_neg hr]
+        simp only [WM.bind_apply, WM.pure_apply]
+        rfl
+    obtain ⟨W', hex, hvecs, hcr, hflt⟩ := hfin
+    refine ⟨cap, rfl, ?_, by rw [hex]⟩
+    rw [hex] at hinv' ⊢
+    refine ⟨hinv', hflt, by rw [hcr, hn], by rw [hvecs]; simp [hlen], ?_⟩
+    exact shows_append w W' ms nv _ hlen hsh hvecs ⟨rfl, rfl, rfl, rfl, by simp [nv], rfl⟩
+  | panic m =>
+    right
+    have hex : step cfg (.new ty bk cl) w = ({ w with fault := none }, .panic m) := by
+      simp only [step, newVec, WM.bind_apply, hb, WM.lift]
+    refine ⟨m, rfl, ?_, by rw [hex]⟩
+    rw [hex]
+    rw [hex] at hinv'
+    exact ⟨hinv', rfl, hn, hlen, hsh⟩
+  | ub m =>
+    exfalso
+    cases hbk' : bk <;> simp [VecSt.buildCap, hbk'] at hb <;> (repeat (first | split at hb | cases hb))
+
+/-! ### a lazy clone of an element of one vector pushed into another: `u.push(v.at(i).lazy_clone())` -/
+
+/-- what consuming a lazy clone of item `i` of `v` by `u.push(..)` can lead to: one clone - a fresh identity - becomes the
+last item of `u` and nothing else changes (the source item stays where it is); or nothing at all happens (`i` out of
+range, other element type, no room: an unconsumed lazy clone owns nothing, so nothing is destroyed either) -/
+inductive LazyStep (ms : MSpec) (u i : Nat) (a au : AVec) : MSpec → Prop where
+  | cloned (c : Nat) (hi : i < a.items.length) (hty : a.ty = au.ty) (hroom : (au.spec ms.next).Room (some c)) :
+      LazyStep ms u i a au ⟨ms.vecs.set u (some { au with items := au.items ++ [ms.next], cap := c }), ms.next + 1⟩
+  | nothing (h : a.items.length ≤ i ∨ a.ty ≠ au.ty ∨ (au.spec ms.next).Room none) : LazyStep ms u i a au ms
+
+/-- **a lazy clone clones exactly when it is consumed, once** (C09 against the abstract state) -/
+theorem lazy_push_refines (cfg : Cfg) (w : World) (ms : MSpec) (h : MRel w ms) (v u i dp : Nat) (hvu : v ≠ u) (a au : AVec)
+    (hv : ms.vecs[v]? = some (some a)) (hu : ms.vecs[u]? = some (some au)) :
+    ∃ ms', LazyStep ms u i a au ms' ∧ MRel (step cfg (.push u (.lazyRef v i dp)) w).1 ms' ∧
+      (step cfg (.push u (.lazyRef v i dp)) w).2.notUb := by
+  obtain ⟨hinv, hf, hn, hlen, hsh⟩ := h
+  have hvlt : v < ms.vecs.length := (List.getElem?_eq_some_iff.mp hv).1
+  have hult : u < ms.vecs.length := (List.getElem?_eq_some_iff.mp hu).1
+  obtain ⟨d, hd⟩ : ∃ d, w.vecs[v]? = some d := ⟨w.vecs[v]'(by omega), List.getElem?_eq_getElem (by omega)⟩
+  obtain ⟨du, hdu⟩ : ∃ d, w.vecs[u]? = some d := ⟨w.vecs[u]'(by omega), List.getElem?_eq_getElem (by omega)⟩
+  obtain ⟨oa, hoa, hshow⟩ := hsh v d hd
+  rw [hv] at hoa; cases hoa
+  obtain ⟨hl, hty, habs, hcp, hbk⟩ := hshow
+  obtain ⟨oau, hoau, hshowu⟩ := hsh u du hdu
+  rw [hu] at hoau; cases hoau
+  obtain ⟨hlu, htyu, habsu, hcpu, hbku⟩ := hshowu
+  have hvalid : Hist.Valid w.vecs (.push u (.lazyRef v i dp)) :=
+    ⟨⟨du, hdu, hlu⟩, by intro v' i' dp' hh; cases hh; exact ⟨Ne.symm hvu, d, hd, hl⟩⟩
+  obtain ⟨hinv', hnub⟩ := Hist.step_inv cfg (.push u (.lazyRef v i dp)) w hinv trivial hvalid
+  have hg := hinv.good v d hd
+  have hgu := hinv.good u du hdu
+  have hlenA := Refine.abs_len hg.wf habs
+  have hwult : u < w.vecs.length := (List.getElem?_eq_some_iff.mp hdu).1
+  -- nothing happens: the step panics and leaves the world as it was
+  have nothing : (∃ m, step cfg (.push u (.lazyRef v i dp)) w = ({ w with fault := none }, .panic m)) →
+      (a.items.length ≤ i ∨ a.ty ≠ au.ty ∨ (au.spec ms.next).Room none) →
+      ∃ ms', LazyStep ms u i a au ms' ∧ MRel (step cfg (.push u (.lazyRef v i dp)) w).1 ms' ∧
+        (step cfg (.push u (.lazyRef v i dp)) w).2.notUb := by
+    intro hex hwhy
+    obtain ⟨m, hex⟩ := hex
+    refine ⟨ms, LazyStep.nothing hwhy, ?_, hnub⟩
+    rw [hex] at hinv' ⊢
+    exact ⟨hinv', rfl, hn, hlen, hsh⟩
+  by_cases hi : i < d.len
+  · have hc := Refine.cell_of_abs hg habs i hi
+    have hmk : mkVal cfg (.lazyRef v i dp) w = (w, .ok (.lazyElem v i)) := by
+      simp only [mkVal, WM.bind_apply, getVec_ok w v d hd hl, hi, if_true, WM.pure_apply]
+    by_cases htyeq : d.ty = du.ty
+    · cases hr : du.reserveOne with
+      | ok p =>
+        obtain ⟨du1, es⟩ := p
+        have hpush := AnyVec.push_lazy_clones_once w v u i _ d du du1 es hvu hd hl hg.wf hi hc hdu hlu hgu.wf htyeq hr hf
+        obtain ⟨hroom1, hlen1, ha1, hw1, hty1, _, _, _, hcl1, hbk1, hl1⟩ := reserveOne_spec du du1 es hgu.wf hr
+        have hex : step cfg (.push u (.lazyRef v i dp)) w =
+            ({ w with vecs := w.vecs.set u (du1.pushCell (.val w.created)), created := w.created + 1,
+                      ev := Event.clone (a.items.getD i 0) w.created :: (es.reverse ++ w.ev) }, .ok []) := by
+          simp only [step, WM.bind_apply, hmk, hpush, WM.pure_apply]
+        refine ⟨_, LazyStep.cloned du1.cap (by omega) (by rw [← hty, ← htyu]; exact htyeq)
+          (Refine.room_ok hgu.wf habsu hcpu hbku.1 hr), ?_, hnub⟩
+        rw [hex] at hinv' ⊢
+        refine ⟨hinv', hf, by show w.created + 1 = ms.next + 1; rw [hn], by simp [hlen], ?_⟩
+        intro k dk hk
+        have hk' : (w.vecs.set u (du1.pushCell (.val w.created)))[k]? = some dk := hk
+        by_cases hku : k = u
+        · subst hku
+          rw [List.getElem?_set_self hwult] at hk'
+          cases hk'
+          refine ⟨some { au with items := au.items ++ [ms.next], cap := du1.cap }, by simp [hult], ?_⟩
+          refine ⟨by simp [VecSt.pushCell, hl1, hlu], by simp [VecSt.pushCell, hty1, htyu], ?_,
+            by simp [VecSt.pushCell], by simp [VecSt.pushCell, hbk1, hcl1, hbku]⟩
+          rw [VecSt.pushCell_abs du1 _ hw1, ha1, habsu, hn]; simp
+        · rw [List.getElem?_set_ne (Ne.symm hku)] at hk'
+          obtain ⟨oa, hoa, hs⟩ := hsh k dk hk'
+          exact ⟨oa, by simp only; rw [List.getElem?_set_ne (Ne.symm hku)]; exact hoa, hs⟩
+      | panic m =>
+        refine nothing ⟨m, ?_⟩ (Or.inr (Or.inr (Refine.room_refused hgu.wf habsu hcpu hr)))
+        simp only [step, WM.bind_apply, hmk, push, getVec_ok w u du hdu hlu, valTy, getVec_ok w v d hd hl, htyeq,
+          ne_eq, not_true_eq_false, if_false, pushUnchecked, WM.onUnwind, vecOp, hr, WM.lift, valDrop, WM.pure_apply]
+      | ub m =>
+        have := reserveOne_notUb du
+        rw [hr] at this; exact this.elim
+    · refine nothing ⟨"Type mismatch!", ?_⟩ (Or.inr (Or.inl (by rw [← hty, ← htyu]; exact htyeq)))
+      simp only [step, WM.bind_apply, hmk, push, getVec_ok w u du hdu hlu, valTy, getVec_ok w v d hd hl, ne_eq, htyeq,
+        not_false_eq_true, if_true, WM.onUnwind, WM.panic_apply, valDrop, WM.pure_apply]
+  · refine nothing ⟨"called `Option::unwrap()` on a `None` value", ?_⟩ (Or.inl (by omega))
+    simp only [step, WM.bind_apply, mkVal, getVec_ok w v d hd hl, hi, if_false, WM.panic_apply]
+
+/-! ### identities are unique in every abstract state a world shows -/
+
+/-- the identities of one component (a dropped vector holds none) -/
+def itemsOf : Option AVec → List Nat
+  | some a => a.items
+  | none => []
+
+/-- all identities held by vectors, vector by vector -/
+def MSpec.allItems (ms : MSpec) : List Nat := (ms.vecs.map itemsOf).flatten
+
+theorem sublist_of_shows : ∀ (ds : List VecSt) (as : List (Option AVec)), ds.length = as.length →
+    (∀ (k : Nat) (d : VecSt), ds[k]? = some d → ∃ oa, as[k]? = some oa ∧ Shows d oa) →
+    List.Sublist ((as.map itemsOf).flatten.map Cell.val) (ds.map VecSt.abs).flatten
+  | [], [], _, _ => by simp
+  | [], _ :: _, h, _ => by simp at h
+  | _ :: _, [], h, _ => by simp at h
+  | d :: ds, oa :: as, hlen, hsh => by
+    have ih := sublist_of_shows ds as (by simpa using hlen) (by
+      intro k dk hk
+      have := hsh (k + 1) dk (by simpa using hk)
+      simpa using this)
+    obtain ⟨ob, hob, hs⟩ := hsh 0 d rfl
+    simp only [List.getElem?_cons_zero, Option.some.injEq] at hob
+    subst hob
+    simp only [List.map_cons, List.flatten_cons, List.map_append]
+    refine List.Sublist.append ?_ ih
+    cases oa with
+    | none => simp [itemsOf]
+    | some a =>
+      obtain ⟨_, _, habs, _⟩ := hs
+      simp only [itemsOf]
+      rw [habs]
+      exact List.Sublist.refl _
+
+/-- **one owner per identity, on the abstract side**: in every abstract state a world shows, no identity occurs twice
+among all the vectors, every one is older than the counter, and none of them has been destroyed -/
+theorem mrel_unique (w : World) (ms : MSpec) (h : MRel w ms) :
+    ms.allItems.Nodup ∧ (∀ id ∈ ms.allItems, id < ms.next) ∧ ∀ id ∈ ms.allItems, id ∉ w.dropLog := by
+  obtain ⟨hinv, _, hn, hlen, hsh⟩ := h
+  have hsub := sublist_of_shows w.vecs ms.vecs hlen hsh
+  have hvis : List.Sublist (ms.allItems.map Cell.val) w.allVis := hsub
+  have hall : List.Sublist w.allVis w.all := by
+    unfold World.all World.owned
+    rw [List.append_assoc]
+    exact List.sublist_append_left _ _
+  have hnd : (ms.allItems.map Cell.val).Nodup := (hvis.trans hall).nodup hinv.nodup
+  refine ⟨List.Pairwise.of_map Cell.val (fun a b hab hc => hab (by rw [hc])) hnd, ?_, ?_⟩
+  · intro id hid
+    have hmem : Cell.val id ∈ w.all := (hvis.trans hall).subset (List.mem_map_of_mem hid)
+    rw [← hn]; exact hinv.bound id hmem
+  · intro id hid hdrop
+    -- the identity would occur twice in `all`: once visible, once in the drop log
+    have h1 : Cell.val id ∈ w.allVis := hvis.subset (List.mem_map_of_mem hid)
+    have h2 : Cell.val id ∈ w.held.map Cell.val ++ w.dropLog.map Cell.val :=
+      List.mem_append_right _ (List.mem_map_of_mem hdrop)
+    have hnd' : (w.allVis ++ (w.held.map Cell.val ++ w.dropLog.map Cell.val)).Nodup := by
+      have : List.Sublist (w.allVis ++ (w.held.map Cell.val ++ w.dropLog.map Cell.val)) w.all := by
+        unfold World.all World.owned
+        exact List.sublist_append_left _ _
+      exact this.nodup hinv.nodup
+    rw [List.nodup_append] at hnd'
+    exact hnd'.2.2 _ h1 _ h2 rfl
+
+/-! ### one abstract machine for whole life cycles -/
+
+/-- everything a script does with vectors: create, operate on one, clone, hand an element over, drop -/
+inductive AOp where
+  | new (ty : Nat) (bk : Backend) (cl : Bool)
+  | on (v : Nat) (op : VOp)
+  | clone (v : Nat)
+  /-- `u.push(v.remove(i))` -/
+  | move (v i u : Nat)
+  /-- `u.push(v.at(i).lazy_clone())` (`dp`: how many times the lazy clone was lazily cloned again before) -/
+  | pushLazy (v i dp u : Nat)
+  | drop (v : Nat)
+  deriving Repr
+
+/-- the script step -/
+def AOp.toOp (w : World) : AOp → Op
+  | .new ty bk cl => .new ty bk cl
+  | .on v op => MOp.toOp w ⟨v, op⟩
+  | .clone v => .clone v
+  | .move v i u => .remove v i (.pushTo u)
+  | .pushLazy v i dp u => .push u (.lazyRef v i dp)
+  | .drop v => .dropVec v
+
+/-- what the type system and the borrow checker guarantee about one step, read on the abstract state: the vectors it
+names are alive (and distinct), the operation exists on that storage, `clone()` only with `Cloneable` -/
+def AOk (ms : MSpec) : AOp → Prop
+  | .new _ _ _ => True
+  | .on v op => ∃ a, ms.vecs[v]? = some (some a) ∧ op.Allowed a.fixed
+  | .clone v => ∃ a, ms.vecs[v]? = some (some a) ∧ a.cloneable = true
+  | .move v _ u => v ≠ u ∧ (∃ a, ms.vecs[v]? = some (some a)) ∧ ∃ au, ms.vecs[u]? = some (some au)
+  | .pushLazy v _ _ u => v ≠ u ∧ (∃ a, ms.vecs[v]? = some (some a)) ∧ ∃ au, ms.vecs[u]? = some (some au)
+  | .drop v => ∃ a, ms.vecs[v]? = some (some a)
+
+/-- the abstract machine -/
+inductive AStep (cfg : Cfg) : MSpec → AOp → MSpec → Prop where
+  | new (ms : MSpec) (ty : Nat) (bk : Backend) (cl : Bool) (cap : Nat)
+      (h : VecSt.buildCap bk cfg.size cfg.align = .ok cap) :
+      AStep cfg ms (.new ty bk cl) ⟨ms.vecs ++ [some ⟨ty, [], cap, !VecSt.resizable bk, cl⟩], ms.next⟩
+  | newRefused (ms : MSpec) (ty : Nat) (bk : Backend) (cl : Bool) (m : String)
+      (h : VecSt.buildCap bk cfg.size cfg.align = .panic m) : AStep cfg ms (.new ty bk cl) ms
+  | on (ms ms' : MSpec) (v : Nat) (op : VOp) (h : MSpec.Step ms ⟨v, op⟩ ms') : AStep cfg ms (.on v op) ms'
+  | clone (ms ms' : MSpec) (v : Nat) (a : AVec) (hv : ms.vecs[v]? = some (some a)) (h : CloneStep ms a ms') :
+      AStep cfg ms (.clone v) ms'
+  | move (ms ms' : MSpec) (v i u : Nat) (a au : AVec) (hv : ms.vecs[v]? = some (some a))
+      (hu : ms.vecs[u]? = some (some au)) (h : MoveStep ms v u i a au ms') : AStep cfg ms (.move v i u) ms'
+  | pushLazy (ms ms' : MSpec) (v i dp u : Nat) (a au : AVec) (hv : ms.vecs[v]? = some (some a))
+      (hu : ms.vecs[u]? = some (some au)) (h : LazyStep ms u i a au ms') : AStep cfg ms (.pushLazy v i dp u) ms'
+  | drop (ms : MSpec) (v : Nat) (a : AVec) (hv : ms.vecs[v]? = some (some a)) :
+      AStep cfg ms (.drop v) ⟨ms.vecs.set v none, ms.next⟩
+
+/-- **one step of a life cycle refines the abstract machine** -/
+theorem astep_refines (cfg : Cfg) (w : World) (ms : MSpec) (h : MRel w ms) (op : AOp) (hok : AOk ms op) :
+    ∃ ms', AStep cfg ms op ms' ∧ MRel (step cfg (op.toOp w) w).1 ms' ∧ (step cfg (op.toOp w) w).2.notUb := by
+  cases op with
+  | new ty bk cl =>
+    rcases new_refines cfg w ms h ty bk cl with ⟨cap, hb, hrel, hres⟩ | ⟨m, hb, hrel, hres⟩
+    · exact ⟨_, AStep.new ms ty bk cl cap hb, hrel, by simp only [AOp.toOp]; rw [hres]; trivial⟩
+    · exact ⟨_, AStep.newRefused ms ty bk cl m hb, hrel, by simp only [AOp.toOp]; rw [hres]; trivial⟩
+  | on v op =>
+    obtain ⟨a, hv, hop⟩ := hok
+    obtain ⟨ms', hs, hrel, hnub⟩ := mstep_refines cfg w ms h ⟨v, op⟩ a hv hop
+    exact ⟨ms', AStep.on ms ms' v op hs, hrel, hnub⟩
+  | clone v =>
+    obtain ⟨a, hv, hcl⟩ := hok
+    obtain ⟨ms', hs, hrel, hnub⟩ := clone_refines cfg w ms h v a hv hcl
+    exact ⟨ms', AStep.clone ms ms' v a hv hs, hrel, hnub⟩
+  | move v i u =>
+    obtain ⟨hvu, ⟨a, hv⟩, au, hu⟩ := hok
+    obtain ⟨ms', hs, hrel, hnub⟩ := move_refines cfg w ms h v u i hvu a au hv hu
+    exact ⟨ms', AStep.move ms ms' v i u a au hv hu hs, hrel, hnub⟩
+  | pushLazy v i dp u =>
+    obtain ⟨hvu, ⟨a, hv⟩, au, hu⟩ := hok
+    obtain ⟨ms', hs, hrel, hnub⟩ := lazy_push_refines cfg w ms h v u i dp hvu a au hv hu
+    exact ⟨ms', AStep.pushLazy ms ms' v i dp u a au hv hu hs, hrel, hnub⟩
+  | drop v =>
+    obtain ⟨a, hv⟩ := hok
+    obtain ⟨hrel, hnub, _⟩ := drop_refines cfg w ms h v a hv
+    exact ⟨_, AStep.drop ms v a hv, hrel, hnub⟩
+
+/-- run a script -/
+def arun (cfg : Cfg) : World → List AOp → World
+  | w, [] => w
+  | w, op :: rest => arun cfg (step cfg (op.toOp w) w).1 rest
+
+inductive ASteps (cfg : Cfg) : MSpec → List AOp → MSpec → Prop where
+  | nil (ms : MSpec) : ASteps cfg ms [] ms
+  | cons (ms ms1 ms2 : MSpec) (op : AOp) (rest : List AOp) : AStep cfg ms op ms1 → ASteps cfg ms1 rest ms2 →
+      ASteps cfg ms (op :: rest) ms2
+
+/-- a script is well-typed from an abstract state: each step is `AOk` wherever the abstract machine can be by then -/
+def Safe (cfg : Cfg) : MSpec → List AOp → Prop
+  | _, [] => True
+  | ms, op :: rest => AOk ms op ∧ ∀ ms', AStep cfg ms op ms' → Safe cfg ms' rest
+
+/-- **whole life cycles refine the abstract machine**: from any world that shows an abstract state (every fault-free
+reachable world does), every well-typed script - creating vectors, operating on them element-wise, by ranges and by
+capacity requests, cloning them, handing elements from one to another, dropping them, in any order and number - leads to
+a world that shows a state the abstract machine reaches by the same script, and never faults on memory. -/
+theorem life_cycles_refine (cfg : Cfg) (ops : List AOp) :
+    ∀ (w : World) (ms : MSpec), MRel w ms → Safe cfg ms ops →
+      ∃ ms', ASteps cfg ms ops ms' ∧ MRel (arun cfg w ops) ms' := by
+  induction ops with
+  | nil => intro w ms h _; exact ⟨ms, ASteps.nil ms, h⟩
+  | cons op rest ih =>
+    intro w ms h hsafe
+    obtain ⟨hok, hnext⟩ := hsafe
+    obtain ⟨ms1, hs1, hrel1, _⟩ := astep_refines cfg w ms h op hok
+    obtain ⟨ms2, hs2, hrel2⟩ := ih _ ms1 hrel1 (hnext ms1 hs1)
+    exact ⟨ms2, ASteps.cons ms ms1 ms2 op rest hs1 hs2, hrel2⟩
+
+theorem arun_append (cfg : Cfg) (w : World) (xs ys : List AOp) : arun cfg w (xs ++ ys) = arun cfg (arun cfg w xs) ys := by
+  induction xs generalizing w with
+  | nil => rfl
+  | cons x xs ih => simp [arun, ih]
+
+/-- the same without asking anything of the script in advance: **every script refines the abstract machine up to the first
+step that is ill-typed in the abstract state reached** - either the whole script refines, or a prefix does and the next
+step names a dropped or missing vector, the same vector twice, an operation its storage does not have, or `clone()` without
+`Cloneable` (programs the compiler rejects) -/
+theorem life_cycles_refine_or_stuck (cfg : Cfg) (ops : List AOp) :
+    ∀ (w : World) (ms : MSpec), MRel w ms →
+      (∃ ms', ASteps cfg ms ops ms' ∧ MRel (arun cfg w ops) ms') ∨
+      (∃ pre op rest ms1, ops = pre ++ op :: rest ∧ ASteps cfg ms pre ms1 ∧ MRel (arun cfg w pre) ms1 ∧ ¬ AOk ms1 op) := by
+  induction ops with
+  | nil => intro w ms h; exact Or.inl ⟨ms, ASteps.nil ms, h⟩
+  | cons op rest ih =>
+    intro w ms h
+    by_cases hok : AOk ms op
+    · obtain ⟨ms1, hs1, hrel1, _⟩ := astep_refines cfg w ms h op hok
+      rcases ih _ ms1 hrel1 with ⟨ms2, hs2, hrel2⟩ | ⟨pre, op', rest', ms2, heq, hs2, hrel2, hbad⟩
+      · exact Or.inl ⟨ms2, ASteps.cons ms ms1 ms2 op rest hs1 hs2, hrel2⟩
+      · exact Or.inr ⟨op :: pre, op', rest', ms2, by rw [heq]; rfl, ASteps.cons ms ms1 ms2 op pre hs1 hs2, hrel2, hbad⟩
+    · exact Or.inr ⟨[], op, rest, ms, rfl, ASteps.nil ms, h, hok⟩
+
+/-! non-vacuity: a script through a whole life cycle on the empty world -/
+def sampleScript : List AOp := [.new 0 .heap true, .on 0 .push, .drop 0]
+
+example : (arun { size := 8, align := 8, hasDrop := true } {} sampleScript).dropLog = [0] := by decide
 
 end RefineMulti
 end AnyVec
